@@ -204,6 +204,7 @@ def run(ctx):
     shared.frame_type_table(ctx, "C03-type")
     # a request stream split into halves keeps its place in the frame sequence
     shared.frame_stream_split(ctx, "C03-split")
+    shared.request_stream_split(ctx, "C03-split")
 
     # ---------------------------------------------------------------- WebTransport front door
     b = ru.need(ctx, "C03-wt", "h3_webtransport::server::WebTransportSession::accept_bi::{closure#0}")
